@@ -22,7 +22,8 @@ def opC03Judge (j : Json) : Json :=
 def attemptObsOf (j : Json) : Spec.C07.AttemptObs :=
   { startMs := nat j "start_ms", endMs := nat j "end_ms", postOpCount := nat j "post_op_count",
     reportedSuccess := bool j "reported_success", installed := bool j "installed",
-    nextStartMs := optNat j "next_start_ms", hookFailed := bool j "hook_failed" }
+    nextStartMs := optNat j "next_start_ms", hookFailed := bool j "hook_failed",
+    statusTextPresent := if isNull (get j "status_text_present") then true else bool j "status_text_present" }
 
 def opC07Judge (j : Json) : Json :=
   let log := (arr j "attempts").toList.map attemptObsOf
@@ -30,6 +31,12 @@ def opC07Judge (j : Json) : Json :=
               ("attempts_ok", Json.arr (log.map (fun a => Json.bool (Spec.C07.attemptOk a))).toArray),
               ("pause_ok", Json.arr (log.map (fun a => Json.bool (Spec.C07.pauseOk a))).toArray)]
 
-def opsFlow : List (String × (Json → Json)) := [("c03_judge", opC03Judge), ("c07_judge", opC07Judge)]
+def opC07Run (j : Json) : Json :=
+  let r : Spec.C07.RunObs := { processAlive := bool j "process_alive",
+                               healthyIssued := (arr j "healthy_issued").toList.map fun x => x == Json.bool true }
+  Json.mkObj [("holds", Spec.C07.runOk r)]
+
+def opsFlow : List (String × (Json → Json)) :=
+  [("c03_judge", opC03Judge), ("c07_judge", opC07Judge), ("c07_run", opC07Run)]
 
 end Drv
